@@ -13,6 +13,7 @@ import Driver.Ops.C12
 import Driver.Ops.C13
 import Driver.Ops.C14
 import Driver.Ops.C15
+import Driver.Ops.C16
 import Driver.Ops.C17
 import Driver.Ops.C18
 import Driver.Ops.C19
@@ -35,6 +36,7 @@ def allOps : OpTable :=
   ++ opsC13
   ++ opsC14
   ++ opsC15
+  ++ opsC16
   ++ opsC17
   ++ opsC18
   ++ opsC19
